@@ -313,9 +313,10 @@ Fixpoint env_ok (en : env) (e : expr) : bool :=
    [pos_ok] : such tests occur only in positive and/or positions of the (filter) condition -> same kept rows. *)
 
 Definition value_typed (e : expr) : bool := match ty_of e with Some (TV _) => true | _ => false end.
+Definition cond_typed (e : expr) : bool := match ty_of e with Some TCond => true | _ => false end.
 
 Fixpoint clean (en : env) (e : expr) : bool :=
-  let operand x := clean en x && (negb (value_typed x) || negb (is_none (reval true en x))) in
+  let operand x := clean en x && (cond_typed x || negb (is_none (reval true en x))) in
   match e with
   | EAttr _ | EInt _ | EStr _ | EBool _ | ENone | EParam _ _ => true
   | EArith _ a b | EConcat a b | ECmp _ a b => clean en a && clean en b
